@@ -42,12 +42,17 @@ def _shim(sy):
     return [] if sy.is_numeric else np_shim_for(pcmod)
 
 
+WIDTH = [1]  # how many nodes above its own the support of a basis function reaches (1: degree 1, 2: higher degrees)
+
+
 class BF:
-    """eko basis function stub: support ends at node j+1 (piecewise-linear-like); not log mode."""
+    """eko basis function stub: support ends at node j+WIDTH (degree-1-like for WIDTH=1, wider for
+    higher polynomial degrees -- which basis functions contribute is eko's is_below_x, never an
+    assumption about the degree); not log mode."""
 
     def __init__(self, j):
         self.j = j
-        self.hi = NODES[min(j + 1, len(NODES) - 1)]
+        self.hi = NODES[min(j + WIDTH[0], len(NODES) - 1)]
 
     def is_below_x(self, x):
         return bool(self.hi <= x) if self.j < len(NODES) - 1 else bool(self.hi < x)
@@ -233,7 +238,7 @@ def sec_formulas(rep):
                     out.append(("integration point is xi", all((xx is R.lift(xi)) or sy.is_numeric for _, _, xx in clog), True))
                     return out
 
-                rep.check(f"C10/{cls.__name__}/mode={mode}({['','APFEL','approx','exact'][mode]})/{flavor}", case, sy, pre, sides=(flavor == "total"), max_paths=64, exc_ok=lambda p: isinstance(p.exc, ValueError) and "outside xgrid" in str(p.exc))
+                rep.check(f"C10/{cls.__name__}/mode={mode}({['','APFEL','approx','exact'][mode]})/{flavor}/support-width={WIDTH[0]}", case, sy, pre, sides=(flavor == "total"), max_paths=64, exc_ok=lambda p: isinstance(p.exc, ValueError) and "outside xgrid" in str(p.exc))
     rep.sample({"formula": "ESFTMC_F2 exact: result == x^2/(xi^2 r^3) F2(xi) + 6 mu x^3/r^4 sum_j I[1/u^2](j) F2(x_j) + 12 mu^2 x^4/r^5 sum_j I[(u-xi)/u^2](j) F2(x_j) for all x, Q2, M2 > 0, with r = sqrt(1+4x^2 mu) reduced by r^2 = 1+4x^2mu"})
 
 
@@ -309,7 +314,7 @@ def sec_convolve(rep):
                     ("kernels and points", [(w, j) for w, j, _ in clog], [(expw, j) for j in range(len(NODES)) if not BF(j).is_below_x(sy.xi)]),
                 ]
 
-            rep.check(f"C10/{kind}.{meth}/post(integral of {expk} with weight {expw})", case, sy, pre + [sy.xi >= NODES[0]], max_paths=64)
+            rep.check(f"C10/{kind}.{meth}/post(integral of {expk} with weight {expw})/support-width={WIDTH[0]}", case, sy, pre + [sy.xi >= NODES[0]], max_paths=64)
     rep.cases += 1
 
     def case_low(sy):
@@ -373,6 +378,15 @@ def sec_selfcheck(rep, seed):
     rep.add(Ob("C10/selfcheck/canary-wrong-h2-factor-refuted", "canary", PROVED if bad else "error", "ratfun", 0, f"refuted on {len(bad)} paths; replay confirmed={[o.replay.get('confirmed') for o in bad][:3]}"))
 
 
+def sec_domain(rep):
+    """The shifted point xi (and every grid node a TMC integral asks for) is a legal request or is
+    rejected: the kinematic-domain contracts of the ESF / TMC constructors (C16), re-discharged here
+    because 'evaluated at xi' presupposes that a xi below the grid is refused, not answered."""
+    from . import c16
+
+    c16.sec_kinematics(rep)
+
+
 def run(rep, tier, seed, only=None):
     from pvc.core import lean_lemmas
 
@@ -386,8 +400,14 @@ def run(rep, tier, seed, only=None):
         "sqrt atom carries rho^2 = 1 + 4 x^2 M2/Q2; continuity at M=0 from definedness of all coefficients for M2 >= 0",
     )
     rep.stub("sf.StructureFunction -> SFStub (abstract structure functions)", "conv.convolution -> abstract I[weight](j), weight decided semantically from the kernel passed", "eko interpolator -> 4-node stub")
-    for nm, f in (("kernels", sec_kernels), ("lcov", sec_lcov), ("init", sec_init), ("formulas", sec_formulas), ("dispatch", sec_dispatch), ("convolve", sec_convolve), ("limit", sec_limit)):
+    for nm, f in (("kernels", sec_kernels), ("lcov", sec_lcov), ("init", sec_init), ("formulas", sec_formulas), ("dispatch", sec_dispatch), ("convolve", sec_convolve), ("limit", sec_limit), ("domain", sec_domain)):
         if only and only not in nm:
+            continue
+        if nm in ("formulas", "convolve"):
+            for w_ in (1, 2):
+                WIDTH[0] = w_
+                rep.add(guarded(f"C10/{nm}[support-width={w_}]", lambda f=f: (f(rep), [])[1]))
+            WIDTH[0] = 1
             continue
         rep.add(guarded(f"C10/{nm}", lambda f=f: (f(rep), [])[1]))
     if not only and rep.replay_target is None:
